@@ -9,6 +9,12 @@ point cannot be exact are treated explicitly and only there:
   * the Kruskal routine (norms, N-th roots): one-step trace validation at 1e-9 relative of the
     model applied to the implementation's own normalised copy; the symmetry of the *result* is
     checked exactly (equal factor matrices, exact rational evaluation of the returned object).
+    "Keeps its value" / "symmetrising again changes nothing": the array clauses on the implementation
+    at 1e-9; the decidable hypothesis `kaligned` of C15_kruskal_keeps_value is evaluated by the
+    model on exact rationals (the implementation's normalised copy, the normalised copy of the
+    result, and – for already symmetric inputs – that copy with its columns snapped to +- the first
+    factor's) and recomputed here; where it holds the model's result must denote the copy's array
+    exactly (driver) and the implementation's result that array at 1e-9.
 """
 from __future__ import annotations
 
@@ -34,14 +40,21 @@ RULE = ("dense: every shape with <= 36 cells and order <= 4 (thorough; a seeded 
         "seven storage variants of the same logical operand (constructor-built F-contiguous; `.data` replaced by a "
         "C-contiguous copy; by a view contiguous in neither order; tensor grown by assignment past its extent; "
         "float64 and int64); both versions, "
-        "details on/off; Kruskal: cubic integer factor matrices of order 2..4, rank 1..3; malformed groups "
+        "details on/off; Kruskal: cubic integer factor matrices of order 2..4, rank 1..3 (random / non-cubic), already "
+        "symmetric tensors (equal / alternately negated / per-mode scaled factors) of order 1..5, rank 1..4 with zero "
+        "weights, zero columns in all or in one factor, an even / odd number of factors against the first, weights of "
+        "either sign; for every accepted case the model step, the hypothesis kaligned and the exact array comparison on "
+        "the normalised copy, on the normalised copy of the result (second symmetrisation) and on the snapped copy; "
+        "malformed groups "
         "(unequal extents, overlapping, out of range, negative, empty, a mode listed twice) in a separate stream; non-trivial = accepted and "
         "more than one cell in a group of at least two modes; distinct = distinct case hash")
 ASSUMPTIONS = [
     "np.transpose / np.sort / fancy indexing / numpy_groupies.aggregate / itertools.permutations have the "
     "semantics of the model primitives of the same name (exercised by this correspondence)",
     "Kruskal symmetrize: ktensor.normalize('all') is an external numerical service (norms and N-th roots); the "
-    "model starts from the implementation's normalised copy and is compared at 1e-9 relative",
+    "model starts from the implementation's normalised copy and is compared at 1e-9 relative; for an already symmetric "
+    "input the copy's columns are +- the first factor's only up to rounding, there the model also runs on the copy with "
+    "those columns snapped (accepted within 1e-9 relative)",
 ]
 EXHAUSTIVE = {"quick": False, "thorough": True}
 
@@ -629,37 +642,111 @@ def _kfull(weights, factors):
     return out
 
 
-def _components_parallel(factors):
-    """column j of every factor is a non-zero multiple of column j of the first factor (exact, integers)"""
+def _components_parallel(factors, weights=None):
+    """every component is a multiple of a symmetric rank-one term (exact, integers): column j of every factor is
+    a non-zero multiple of column j of the first factor, or the component vanishes (weight zero or a zero
+    column in some factor)"""
     f0 = factors[0]
     R = len(f0[0]) if f0 else 0
     for j in range(R):
-        a = [row[j] for row in f0]
-        if not any(a):
-            return False
-        for f in factors[1:]:
-            b = [row[j] for row in f]
-            if not any(b):
-                return False
+        cols = [[row[j] for row in f] for f in factors]
+        if (weights is not None and weights[j] == 0) or any(not any(c) for c in cols):
+            continue
+        a = cols[0]
+        for b in cols[1:]:
             if any(a[i] * b[k] != a[k] * b[i] for i in range(len(a)) for k in range(len(a))):
                 return False
     return True
 
 
+def _aligned_py(Kn):
+    """the decidable hypothesis `kaligned` of C15_kruskal_keeps_value, recomputed here on exact rationals:
+    order >= 1, all factors with the row count of the first and one entry per component in every row, column j
+    of every factor = column j of the first factor or its negation"""
+    fs = [[[frac(x) for x in row] for row in f] for f in Kn["factors"]]
+    R = len(Kn["weights"])
+    if not fs:
+        return False
+    f0 = fs[0]
+    for f in fs:
+        if len(f) != len(f0) or any(len(row) != R for row in f):
+            return False
+        for j in range(R):
+            a, b = [row[j] for row in f0], [row[j] for row in f]
+            if b != a and b != [-x for x in a]:
+                return False
+    return True
+
+
+def _snap(Kn, rel=1e-9):
+    """the implementation's normalised copy with every column of the modes >= 1 replaced by +- the first
+    factor's column (sign of the dot product) when it is that column up to `rel` (relative to the column's
+    largest entry) - what the copy of an already symmetric tensor is in exact arithmetic.  None when some
+    column is further away."""
+    fs = [[[frac(x) for x in row] for row in f] for f in Kn["factors"]]
+    R = len(Kn["weights"])
+    f0 = fs[0]
+    out = [f0]
+    for f in fs[1:]:
+        g = [list(row) for row in f]
+        for j in range(R):
+            a, b = [row[j] for row in f0], [row[j] for row in f]
+            dot = sum(x * y for x, y in zip(a, b))
+            sg = -1 if dot < 0 else 1
+            scale = max([abs(x) for x in a] + [abs(x) for x in b] + [Fraction(0)])
+            if any(abs(y - sg * x) > Fraction(rel) * scale for x, y in zip(a, b)):
+                return None
+            for i in range(len(g)):
+                g[i][j] = sg * a[i]
+        out.append(g)
+    return {"weights": Kn["weights"], "factors": jval(out)}
+
+
+def jval_f(o):
+    """a model reply with its (very long) exact rationals shortened to doubles, for reports only"""
+    if isinstance(o, dict):
+        return {k: jval_f(v) for k, v in o.items()}
+    if isinstance(o, list):
+        return [jval_f(v) for v in o]
+    if isinstance(o, str) and "/" in o:
+        return float(frac(o))
+    return o
+
+
+def _flat(Kj):
+    return list(Kj["weights"]) + [x for f in Kj["factors"] for row in f for x in row]
+
+
+def _step_close(impl_K, model_K, rel=1e-9):
+    a, b = _flat(impl_K), _flat(model_K)
+    return len(a) == len(b) and all(close(x, y, rel) for x, y in zip(a, b))
+
+
 class Kruskal(Family):
-    """ktensor.symmetrize: result symmetric in all modes and passes ktensor.issymmetric; ktensor.issymmetric
-    against its model; non-cubic tensors rejected."""
+    """ktensor.symmetrize: result symmetric in all modes and passes ktensor.issymmetric; an already symmetric
+    tensor keeps its value and symmetrising again changes nothing (array clauses on the implementation, the
+    decidable hypothesis `kaligned` and the model's result on the normalised copies); ktensor.issymmetric against
+    its model; non-cubic tensors rejected."""
     name = "kruskal"
-    theorems = ("C15_kruskal_sym", "C15_kruskal_passes_test", "C15_kruskal_issymmetric_iff", "C15_kruskal_rejects")
+    theorems = ("C15_kruskal_sym", "C15_kruskal_passes_test", "C15_kruskal_issymmetric_iff", "C15_kruskal_rejects",
+                "C15_kruskal_keeps_value", "C15_kruskal_keeps_value_input", "C15_kruskal_keeps_value_stored",
+                "C15_kruskal_keeps_value_of_parallel", "C15_kruskal_fixes_sym", "C15_kruskal_idem",
+                "C15_kruskal_sym_array")
 
     def gen(self, rng, tier):
         out = []
-        n = 25 if tier == "quick" else 250
+        n = 60 if tier == "quick" else 1200
         for _ in range(n):
             N = rng.choice([2, 3, 3, 4])
             m = rng.randint(1, 3)
             R = rng.randint(1, 3)
             kind = rng.choice(["random", "random", "equal", "negated", "parallel", "parallel", "noncubic"])
+            if kind in ("equal", "negated", "parallel"):
+                # the already-symmetric kinds: every order 1..5 of either parity, rank up to 4
+                N = rng.choice([1, 2, 3, 3, 4, 4, 5])
+                R = rng.randint(1, 4)
+                if N == 5:
+                    m = rng.randint(1, 2)
             w = gen.int_values(rng, R, -3, 3, nonzero=rng.random() < 0.8)
             if kind == "noncubic":
                 sizes = [m] * N
@@ -681,6 +768,19 @@ class Kruskal(Family):
                     fac.append([[x * cs[j] for j, x in enumerate(r)] for r in A])
             else:
                 fac = [gen.matrix(rng, m, R) for _ in range(N)]
+            if kind in ("equal", "negated", "parallel"):
+                # zero weights, zero columns in every factor, a zero column in one factor only (a vanishing
+                # component: the tensor stays symmetric)
+                if rng.random() < 0.3:
+                    w = list(w)
+                    w[rng.randrange(R)] = 0
+                if rng.random() < 0.3:
+                    j = rng.randrange(R)
+                    fac = [[[0 if jj == j else x for jj, x in enumerate(r)] for r in f] for f in fac]
+                if rng.random() < 0.15:
+                    j, k = rng.randrange(R), rng.randrange(N)
+                    fac = [[[0 if (jj == j and kk == k) else x for jj, x in enumerate(r)] for r in f]
+                           for kk, f in enumerate(fac)]
             out.append({"weights": w, "factors": fac, "kind": kind})
         # enumerated (added after seed C15u): symmetric Kruskal tensors of order 2..5 whose sign pattern makes an even /
         # odd number of factors point against the first one, with weights of either sign
@@ -692,10 +792,28 @@ class Kruskal(Family):
                     A = [[1, 2], [-2, 1], [3, 1]] if N <= 4 else [[1, 2], [-2, 1]]
                     fac = [[[x * (-1 if k in neg else 1) for x in r] for r in A] for k in range(N)]
                     out.append({"weights": [2 * wsign[0], 3 * wsign[1]], "factors": fac, "kind": "parallel"})
+        # symmetric ARRAY whose components are not symmetric one by one (sum over all mode orders of a1 x a2 x .. x aN):
+        # ktensor.symmetrize averages the factor matrices, not the array, so these do not keep their value by design -
+        # every other clause applies; whether the value changed is recorded as a tag
+        for _ in range(3 if tier == "quick" else 40):
+            N = rng.choice([2, 2, 3])
+            m = rng.randint(2, 3)
+            vecs = [gen.int_values(rng, m, -3, 3) for _ in range(N)]
+            perms = list(itertools.permutations(range(N)))
+            fac = [[[vecs[p[k]][i] for p in perms] for i in range(m)] for k in range(N)]
+            out.append({"weights": [rng.choice([-2, 1, 3])] * len(perms), "factors": fac, "kind": "arraysym"})
+        # enumerated: rank 4 with a zero weight and a zero column, per-mode scales of either sign (powers of two are
+        # exact in floating point, 3 is not), orders 1..5
+        for N in (1, 2, 3, 4, 5):
+            A = [[1, 2, 0, -1], [-2, 1, 0, 3]]
+            for scales in ([1, -1, 2, -2, 1], [3, -1, -3, 2, -1], [-1, -1, -1, -1, -1]):
+                for w in ([2, -3, 5, 0], [-1, -1, -1, -1], [1, 0, 1, -2]):
+                    fac = [[[x * scales[k] for x in r] for r in A] for k in range(N)]
+                    out.append({"weights": list(w), "factors": fac, "kind": "parallel"})
         return out
 
     def evaluate(self, cases):
-        reqs, impls = [], []
+        reqs, impls, snaps = [], [], {}
         for c in cases:
             K = gen.mk_ktensor(ttb, c["weights"], c["factors"])
 
@@ -705,11 +823,18 @@ class Kruskal(Family):
                 b, d = R.issymmetric(return_diffs=True)
                 # the property's own clauses on the arrays (plain NumPy, independent of the model)
                 FK, FR = _kfull(c["weights"], c["factors"]), _kfull(R.weights, R.factor_matrices)
-                FR2 = R.symmetrize()
-                FR2 = _kfull(FR2.weights, FR2.factor_matrices)
-                mag = max(1e-300, float(np.max(np.abs(FK))), float(np.max(np.abs(FR))))
+                R2 = R.symmetrize()
+                Kn2 = R.copy().normalize("all")
+                FR2 = _kfull(R2.weights, R2.factor_matrices)
+                FKn = _kfull(Kn.weights, Kn.factor_matrices)
+                # scale of the rounding errors: the largest entry of sum_r |w_r| |a_r| x .. x |a_r| (the components may
+                # cancel in the array itself, e.g. 2 a^3 - a^3 - 3 (-a)^3 ... = 0 for one-row factors)
+                mag = max(1e-300, float(np.max(_kfull(np.abs(c["weights"]), [np.abs(f) for f in c["factors"]]))),
+                          float(np.max(_kfull(np.abs(R.weights), [np.abs(f) for f in R.factor_matrices]))))
                 return {"R": ktensor_j(R), "Kn": ktensor_j(Kn), "b": bool(b), "b_plain": bool(R.issymmetric()),
+                        "R2": ktensor_j(R2), "Kn2": ktensor_j(Kn2),
                         "err_keep": float(np.max(np.abs(FR - FK))) / mag,
+                        "err_keep_n": float(np.max(np.abs(FR - FKn))) / mag,
                         "err_idem": float(np.max(np.abs(FR2 - FR))) / mag,
                         "array_sym": float(max(np.max(np.abs(FR - np.transpose(FR, p)))
                                                for p in itertools.permutations(range(FR.ndim)))) / mag,
@@ -725,15 +850,26 @@ class Kruskal(Family):
             Kj = {"weights": c["weights"], "factors": c["factors"]}
             reqs.append({"op": "sym_ksymmetrize_check", "K": Kj})
             reqs.append({"op": "sym_kissymmetric", "K": Kj})
+            reqs.append({"op": "sym_ksymmetrize_full", "K": Kj})
             if "ok" in r:
-                reqs.append({"op": "sym_ksymmetrize_core", "Kn": r["ok"]["Kn"]})
+                # the model's step, the hypothesis `kaligned` and the exact array comparison: on the implementation's
+                # normalised copy, on the normalised copy of the result (second symmetrisation), and - for the already
+                # symmetric kinds - on the snapped copy
+                snap = None
+                if c["kind"] in ("equal", "negated", "parallel") and _components_parallel(c["factors"], c["weights"]):
+                    snap = _snap(r["ok"]["Kn"])
+                snaps[id(c)] = snap
+                reqs.append({"op": "sym_ksymmetrize_aligned", "Kn": r["ok"]["Kn"]})
                 reqs.append({"op": "sym_kfull_symmetric", "K": r["ok"]["R"]})
                 reqs.append({"op": "sym_kissymmetric", "K": r["ok"]["R"]})
+                reqs.append({"op": "sym_ksymmetrize_aligned", "Kn": r["ok"]["Kn2"]})
+                if snap is not None:
+                    reqs.append({"op": "sym_ksymmetrize_aligned", "Kn": snap})
         models = drive(reqs)
         out, pos = [], 0
         for c, (r, t) in zip(cases, impls):
-            chk, mt = models[pos], models[pos + 1]
-            pos += 2
+            chk, mt, full = models[pos], models[pos + 1], models[pos + 2]
+            pos += 3
             N = len(c["factors"])
             tags = [c["kind"], f"N{N}", f"R{len(c['weights'])}"]
             v = Verdict("ok", "", {"sym": r, "test": t}, {"check": chk, "test": mt}, None, tags, "ok" in r)
@@ -760,9 +896,35 @@ class Kruskal(Family):
                 if not okd:
                     v = Verdict("violation", "ktensor.issymmetric differs from 'all factor matrices equal' / the model's differences", v.impl, v.model, None, tags)
             if "ok" in r:
-                core, fullsym, rtest = models[pos], models[pos + 1], models[pos + 2]
-                pos += 3
+                stepm, fullsym, rtest, step2 = models[pos], models[pos + 1], models[pos + 2], models[pos + 3]
+                pos += 4
+                snap, steps = snaps.get(id(c)), None
+                if snap is not None:
+                    steps = models[pos]
+                    pos += 1
+                core = stepm["R"]
                 ro = r["ok"]
+                symkind = c["kind"] in ("equal", "negated", "parallel") and _components_parallel(c["factors"], c["weights"])
+                # internal consistency of the model side (never the implementation's fault): the Lean predicate is the
+                # predicate recomputed here, and where it holds the model's result denotes the copy's array exactly
+                # (the conclusion of C15_kruskal_keeps_value, evaluated by the driver)
+                for nm, Kj, st in (("Kn", ro["Kn"], stepm), ("Kn2", ro["Kn2"], step2), ("snap", snap, steps)):
+                    if st is None:
+                        continue
+                    if st["aligned"] != _aligned_py(Kj):
+                        raise DriverError(f"C15 kruskal: kaligned({nm}) of the model is {st['aligned']}, the harness "
+                                          f"computes {_aligned_py(Kj)}: {Kj}")
+                    if st["aligned"] and not st["same_array"]:
+                        raise DriverError(f"C15 kruskal: the model's result on the aligned copy {nm} denotes another "
+                                          f"array: {Kj}")
+                if steps is not None and not steps["aligned"]:
+                    raise DriverError(f"C15 kruskal: the snapped copy is not aligned: {snap}")
+                tags.append("aligned" if stepm["aligned"] else "not-aligned")
+                if symkind:
+                    tags.append("snapped" if snap is not None else "snap-failed")
+                if c["kind"] == "arraysym":
+                    tags.append("arraysym-value-changed" if ro["err_keep"] > 1e-9 else "arraysym-value-kept")
+                v.tags = tuple(tags)
                 if "reject" in chk:
                     v = Verdict("violation", "ktensor.symmetrize accepted a tensor that is not cubic", v.impl, v.model, None, tags)
                 elif not ro["same_factors"] or not fullsym:
@@ -775,11 +937,26 @@ class Kruskal(Family):
                 elif ro["err_idem"] > 1e-9:
                     v = Verdict("violation", "symmetrising the result of ktensor.symmetrize again changes the array "
                                 f"(relative deviation {ro['err_idem']:.2e})", v.impl, v.model, None, tags)
-                elif c["kind"] in ("equal", "negated", "parallel") and _components_parallel(c["factors"]) \
-                        and ro["err_keep"] > 1e-9:
+                elif symkind and ro["err_keep"] > 1e-9:
                     v = Verdict("violation", "an already symmetric Kruskal tensor (every component a multiple of a symmetric "
                                 f"rank-one term) does not keep its value (relative deviation {ro['err_keep']:.2e})",
                                 v.impl, v.model, None, tags)
+                elif stepm["aligned"] and ro["err_keep_n"] > 1e-9:
+                    v = Verdict("violation", "the normalised copy is symmetric component by component (kaligned) but the result "
+                                f"of ktensor.symmetrize denotes another array (relative deviation {ro['err_keep_n']:.2e})",
+                                v.impl, dict(v.model, step=stepm), None, tags)
+                elif not step2["aligned"]:
+                    v = Verdict("corr", "the normalised copy of the result of ktensor.symmetrize is not symmetric component by "
+                                "component", v.impl, dict(v.model, step2=step2), None, tags)
+                elif not _step_close(ro["R2"], step2["R"]):
+                    v = Verdict("corr", "the second ktensor.symmetrize differs from the model step on the normalised copy of "
+                                "the first result", v.impl, dict(v.model, step2=step2), None, tags)
+                elif symkind and snap is None:
+                    v = Verdict("corr", "the implementation's normalised copy of an already symmetric Kruskal tensor is not "
+                                "symmetric component by component within 1e-9", v.impl, v.model, None, tags)
+                elif steps is not None and not _step_close(ro["R"], steps["R"]):
+                    v = Verdict("corr", "ktensor.symmetrize on an already symmetric Kruskal tensor differs from the model step "
+                                "on the (snapped) aligned normalised copy", v.impl, dict(v.model, snap=steps), None, tags)
                 elif v.status == "ok":
                     # one-step trace validation of the model from the implementation's normalised copy
                     Kn = ro["Kn"]
@@ -799,6 +976,19 @@ class Kruskal(Family):
                         flat_m = core["weights"] + [x for f in core["factors"] for row in f for x in row]
                         if len(flat_i) != len(flat_m) or not all(close(a, b, 1e-9) for a, b in zip(flat_i, flat_m)):
                             v = Verdict("corr", "ktensor.symmetrize differs from the model step", v.impl, dict(v.model, core=core), None, tags)
+                        # the whole model from the un-normalised input (normalize("all") of Ops/KruskalReparam with
+                        # rational square / N-th roots accurate to 2^-80)
+                        elif "ok" not in full:
+                            v = Verdict("corr", "the model of ktensor.symmetrize with its own normalisation refuses the input",
+                                        v.impl, dict(v.model, full=full), None, tags)
+                        elif not _step_close(ro["Kn"], full["ok"]["Kn"]):
+                            v = Verdict("corr", "copy().normalize('all') differs from the model's normalised copy",
+                                        v.impl, dict(v.model, full=jval_f(full["ok"])), None, tags)
+                        elif not _step_close(ro["R"], full["ok"]["R"]):
+                            v = Verdict("corr", "ktensor.symmetrize differs from the model run from the un-normalised input",
+                                        v.impl, dict(v.model, full=jval_f(full["ok"])), None, tags)
+                        elif full["ok"]["aligned"]:
+                            v.tags = tuple(tags + ["model-copy-aligned"])
             else:
                 if "ok" in chk:
                     v = Verdict("violation", f"ktensor.symmetrize raised on a cubic tensor: {r.get('exc')} {r.get('msg')}", v.impl, v.model, None, tags)
